@@ -20,11 +20,13 @@ pub enum Ns {
 }
 
 pub fn ns_name(item: &syn::Item) -> Option<(Ns, String)> {
+    // `r#num` and `num` are the same Rust identifier
+    use syn::ext::IdentExt;
     match item {
-        syn::Item::Struct(s) => Some((Ns::Type, s.ident.to_string())),
-        syn::Item::Enum(e) => Some((Ns::Type, e.ident.to_string())),
-        syn::Item::Type(t) => Some((Ns::Type, t.ident.to_string())),
-        syn::Item::Fn(f) => Some((Ns::Fn, f.sig.ident.to_string())),
+        syn::Item::Struct(s) => Some((Ns::Type, s.ident.unraw().to_string())),
+        syn::Item::Enum(e) => Some((Ns::Type, e.ident.unraw().to_string())),
+        syn::Item::Type(t) => Some((Ns::Type, t.ident.unraw().to_string())),
+        syn::Item::Fn(f) => Some((Ns::Fn, f.sig.ident.unraw().to_string())),
         _ => None,
     }
 }
@@ -431,7 +433,36 @@ fn edit(rng: &mut Rng, cur: &[u8], m: &Model, n: usize, snapshots: &[Vec<u8>], s
     let derived: Vec<usize> = f.items.iter().enumerate().filter(|(_, i)| !is_header(i) && ns_name(i).map(|nn| u_names.contains(&nn)).unwrap_or(false)).map(|(k, _)| k).collect();
     let kind: &'static str;
     let desc: String;
-    match rng.below(12) {
+    match rng.below(13) {
+        12 => {
+            // the user writes the name of a generated item as a raw identifier
+            // (`fn r#num`): the same item under the same name
+            if derived.is_empty() {
+                return None;
+            }
+            kind = "raw-ident";
+            let k = *rng.pick(&derived);
+            let raw = |id: &syn::Ident| -> Option<syn::Ident> {
+                use syn::ext::IdentExt;
+                let n = id.unraw().to_string();
+                if n == "_" || n == "self" || n == "Self" || n == "super" || n == "crate" {
+                    None
+                } else {
+                    Some(syn::Ident::new_raw(&n, id.span()))
+                }
+            };
+            let done = match &mut f.items[k] {
+                syn::Item::Fn(x) => raw(&x.sig.ident).map(|i| x.sig.ident = i).is_some(),
+                syn::Item::Struct(x) => raw(&x.ident).map(|i| x.ident = i).is_some(),
+                syn::Item::Enum(x) => raw(&x.ident).map(|i| x.ident = i).is_some(),
+                syn::Item::Type(x) => raw(&x.ident).map(|i| x.ident = i).is_some(),
+                _ => false,
+            };
+            if !done {
+                return None;
+            }
+            desc = format!("write the name of {} as a raw identifier", label(&f.items[k]));
+        }
         11 => {
             // the user keeps two attribute-selected alternatives of one item
             if derived.is_empty() {
